@@ -64,6 +64,9 @@ boom_os = _raiser(OSError, 2, "no such file")
 boom_lookup = _raiser(LookupError, "lookup")
 boom_runtime = _raiser(RuntimeError, "runtime")
 boom_notimpl = _raiser(NotImplementedError)
+# failures whose text contains characters that mean something to string formatting
+boom_percent = _raiser(ValueError, "utilisation of 120% exceeds the limit of 100%")
+boom_pattern = _raiser(ValueError, "cannot render '%s of %(name)s' with {this} and {0}")
 
 
 _PREPARED = []
